@@ -73,21 +73,19 @@ impl<'a> Lexer<'a> {
 
     /// consume the whitespace sequence following the stream start
     pub fn next_stream(&mut self) -> Result<()> {
-        let pos = self.skip_whitespace(self.pos)?;
-        if !self.buf[pos ..].starts_with(b"stream") {
-            // bail!("next token isn't 'stream'");
-        }
-        
-        let &b0 = self.buf.get(pos + 6).ok_or(PdfError::EOF)?;
+        // the `stream` keyword itself; white-space and comments in front of it are skipped
+        let (_, pos) = self.next_word()?;
+
+        let &b0 = self.buf.get(pos).ok_or(PdfError::EOF)?;
         if b0 == b'\n' {
-            self.pos = pos + 7;
+            self.pos = pos + 1;
         } else if b0 == b'\r' {
-            let &b1 = self.buf.get(pos + 7).ok_or(PdfError::EOF)?;
+            let &b1 = self.buf.get(pos + 1).ok_or(PdfError::EOF)?;
             if b1 != b'\n' {
                 bail!("invalid whitespace following 'stream'");
                 // bail!("invalid whitespace following 'stream'");
             }
-            self.pos = pos + 8;
+            self.pos = pos + 2;
         } else {
             bail!("invalid whitespace");
         }
